@@ -12,7 +12,7 @@ package types
 
 // The generated number (C18): in [0,1), with denominator 10^20, and exactly the documented function of
 // the block hash, the block time, the requester and (if used) the oracle seed.
-//@ func PRNG.GetRand
+//@ func PRNG.GetRand()
 //@   property C18
 //@   returns r
 //@   requires p.BlockTimestamp > 0
